@@ -347,8 +347,8 @@ pub struct Tier {
 
 pub fn tier(name: &str) -> Tier {
     match name {
-        "thorough" => Tier { generated: 4000, models: 1500, enumerate_cap: 3000, random_plans: 40 },
-        _ => Tier { generated: 110, models: 40, enumerate_cap: 600, random_plans: 6 },
+        "thorough" => Tier { generated: 2500, models: 900, enumerate_cap: 3000, random_plans: 40 },
+        _ => Tier { generated: 220, models: 80, enumerate_cap: 600, random_plans: 8 },
     }
 }
 
